@@ -3,7 +3,7 @@ import ast
 
 from .astutil import unparse, dotted
 from .bitcells import (Unsupported, Param, View, Bits, CU32, ModVal, Maybe, TableVal, Opaque, FuncValue, TOP, PCell, INF,
-                       Record, RecordType, ClassValue, Obj, BoundMethod)
+                       Record, RecordType, ClassValue, Obj, BoundMethod, TableRef)
 from .bitexpr import CONSTS, STR_METHODS, is_pow2, norm_const
 
 MAX_DEPTH = 12
@@ -58,11 +58,13 @@ class CallMixin:
         if isinstance(f, ast.Attribute):
             if self.is_noeffect_call(f, st):
                 return None
-            if isinstance(f.value, ast.Name) and self.is_table_name(f.value.id, st):
-                return self.table_method(f.value.id, f.attr, node, st)
             base = self.ev(f.value, st)
             if st.dead:
                 return None
+            if isinstance(base, TableRef):
+                return self.table_method(base.name, f.attr, node, st)
+            if isinstance(base, int) and not isinstance(base, bool) and f.attr == 'bit_length' and not node.args and not node.keywords:
+                return base.bit_length()
             if isinstance(base, Obj) or type(base).__name__ == 'Super':
                 target = self.get_attr(base, f.attr, st, node)
                 if st.dead:
@@ -136,6 +138,11 @@ class CallMixin:
         args, kwargs = self.eval_args(node, st)
         if st.dead:
             return None
+        args = [self.plain(a) for a in args]
+        if name in ('list', 'tuple', 'sorted') and len(args) == 1 and isinstance(args[0], range) and len(args[0]) <= 4096:
+            args = [list(args[0])]
+        if name in ('list', 'tuple', 'sorted', 'len') and len(args) == 1 and isinstance(args[0], dict):
+            args = [list(args[0].keys())]
         if name == 'divmod' and len(args) == 2 and not kwargs:
             a, b = args
             if isinstance(a, int) and isinstance(b, int) and b != 0:
@@ -367,6 +374,7 @@ class CallMixin:
         if not vals or not all(isinstance(x, int) and not isinstance(x, bool) for x in vals):
             raise Unsupported('values of table {} are not integers'.format(tname))
         src = ('reg', key.name)
+        self.lookup_normalised.setdefault(key.name, key.name in self.coerced)
         if src not in st.cells:
             vals = sorted(vals)
             cells = []
